@@ -28,7 +28,8 @@ blocks equally likely to merge) for every 2 <= k <= n <= 7 (quick) / 9 (thorough
 a disagreement raises (checker error), it is never reported as a property violation.
 
 Input space and bound
-  quick    : EVERY pair 2 <= k <= n <= 300 (44850 pairs), both prior distributions; exhaustive to the bound.
+  quick    : EVERY pair 2 <= k <= n <= 300 (44850 pairs), both prior distributions; exhaustive to the bound;
+             plus the rungs n in {1200, 2000} with ~90 values of k each (as on the thorough ladder).
   thorough : EVERY pair 2 <= k <= n <= 600 (179700 pairs), both prior distributions, plus a ladder
              n in {800, 1000, 1500, 2000, 3000, 5000} with ~90 values of k per n (all k <= 12, all
              k >= n-12, the rest spread evenly / drawn with default_rng(seed)).
@@ -229,7 +230,9 @@ def run(req, rep):
     rng = np.random.default_rng(seed)
     thorough = tier == "thorough"
     nmax = int(params.get("nmax", 600 if thorough else 300))
-    ladder = [int(x) for x in params.get("ladder", [800, 1000, 1500, 2000, 3000, 5000] if thorough else [])]
+    # quick: two rungs well beyond the exhaustive bound (the recursion accumulates over n, so some defects --
+    # underflow / overflow of intermediate probabilities -- only show for n in the thousands)
+    ladder = [int(x) for x in params.get("ladder", [800, 1000, 1500, 2000, 3000, 5000] if thorough else [1200, 2000])]
     enum_max = int(params.get("enum_max", 9 if thorough else 7))
 
     rep.space = ("all pairs (n, k), 2 <= k <= n <= nmax, rows of ConditionalCoalescentTimes[n] (exact path) for "
